@@ -212,7 +212,7 @@ def gen_design(rng, opts=None):
             inst = {"n": g.fresh("i"), "of": of, "conns": [], "_iface": iface_of(design, of), "_bports": bundle_ports_of(design, of)}
             r = rng.random()
             if r < 0.15 and opts.get("arrays", True):
-                inst["array"] = rng.randint(2, 3)
+                inst["array"] = rng.randint(2, 3) if rng.random() < 0.9 else rng.randint(11, 13)  # (past 10: element names no longer sort like indices)
             elif r < 0.15 + opts.get("pair_prob", 0.10) and opts.get("pairs", True) and not inst["_bports"] and all(w == 1 for _, _, w in inst["_iface"]):
                 ibs = [b for b in design["bundles"] if b.get("ib")]
                 if ibs and rng.random() < opts.get("ib_prob", 0.6):
@@ -224,16 +224,22 @@ def gen_design(rng, opts=None):
             scalar_ports = [(p, w) for (p, path, w) in inst["_iface"] if not path]
             for p, w in scalar_ports:
                 r = rng.random()
-                if "array" in inst:
+                if ("array" in inst or "pair" in inst) and r < 0.12 and opts.get("noconns", True):
+                    # a no-connect on an array / pair port: every element ends on a net of its own
+                    c = {"k": "noconn"}
+                    if rng.random() < 0.4:
+                        c["name"] = g.fresh("nc")
+                elif "array" in inst:
                     n = inst["array"]
                     ww = w * n if rng.random() < 0.5 else w
                     if ww == w * n and rng.random() < 0.35:
                         # strided / reversed slice taken directly from a signal: the per-element re-slicing peels it
-                        st = rng.choice([-1, 2, -2])
-                        big = g.new_sig(abs(st) * ww + rng.randint(0, 2))
-                        bw = abs(st) * ww + 0
-                        c = {"k": "slice", "p": {"k": "sig", "n": big}, "i": ({"s": 0, "e": abs(st) * ww, "st": st} if st > 0 else
-                                                                            {"s": abs(st) * ww - 1, "e": None, "st": st})}
+                        st = rng.choice([-1, 2, -2, 3])
+                        extra = rng.randint(0, 2)
+                        big = g.new_sig(abs(st) * ww + extra)
+                        off = rng.randint(0, extra)  # the strided slice need not start at bit 0
+                        c = {"k": "slice", "p": {"k": "sig", "n": big}, "i": ({"s": off, "e": off + abs(st) * ww, "st": st} if st > 0 else
+                                                                            {"s": off + abs(st) * ww - 1, "e": (off - 1 if off > 0 else None), "st": st})}
                     else:
                         c = g.scalar(ww, 2, allow_ref=False)
                 elif "pair" in inst:
